@@ -19,6 +19,10 @@ CLAIMED = {
    note=NOTE + " Tokenizer, ast.literal_eval per atom and the file system are not modelled. No Coq theorem about the consumer fold is proved yet.", design="5/C16"),
  'C04': dict(text="Coq theorems: a parameter the caller supplies (positionally or by keyword) has no entry among the bindings that are deep-copied, i.e. its reference is never evaluated (refutation theorem for the code before the repair); evaluation / calls of any nesting never change the store, registry, lock or constants and restore the scope stack (frame theorems by mutual fuel induction). Model tied to /repo by generated programs with nested scoped/unscoped, evaluated/unevaluated references and MUTATING probes; independent predicate: the exact sequence of (configurable, scope) body executions predicted from the store snapshot, delivery shape, freshness, and store equality across every call.",
    note=NOTE + " copy.deepcopy on plain containers is CPython; container isolation is checked by the mutating probes, not proved (the model's values are immutable).", design="5/C04"),
+ 'C05': dict(category='translation_validation', text="The Gin-machine model (macros as references to gin.macro under the macro's scope, constants through the suffix map, parse-time resolution of %name) compared with the implementation on generated programs with definitions / uses / re-definitions in every order across parse phases, scope-like macro names, macros bound to @g() and to other macros, constants with shared suffixes; independent predicate from the op list: each use receives the LAST definition, k uses of a macro bound to @g() run g k times, a constant use delivers the stored object, invalid / duplicate / ambiguous constant names are errors. Finalize checks are covered by C12's theorems.",
+   note=NOTE + " No macro-specific Coq theorem yet (the frame and lock theorems of the machine apply).", design="5/C05"),
+ 'C07': dict(category='translation_validation', text="The Gin-machine model's operative record (defaults filtered by lists and representability, overlaid by bindings, minus caller-supplied names, merged per (scope, selector)) compared with the implementation after generated call sequences; independent predicate: key set = pairs called, per-key parameter sets and most-recent values recomputed from the calls, and a replay: a second fresh gin parses operative_config_str() and repeats the calls, which must receive the same arguments and reproduce the text.",
+   note=NOTE + " The replay theorem over the model is not proved.", design="5/C07"),
  'C08': dict(text="Coq proof (for every history of set/pop/clear/copy and every query, over unbounded name sets) that the suffix-tree model refines a finite map, that matching = exact-match-else-all-suffix-matches, and that the reported minimal selector resolves back and no shorter suffix does; model tied to /repo by a differential run of generated histories plus an independent brute-force statement of the property evaluated on the implementation.",
    note=NOTE + " ASCII selectors only.", design="5/C08"),
  'C09': dict(text="Coq theorem C09_restored: every op of the Gin-machine language (config_scope blocks of any depth, raising bodies, scoped references, nested calls) leaves the scope stack exactly as found on both exits; composition and invalid-scope theorems. Thread half: per-thread-stack model compared with 2-4 real threads stepped by a central scheduler on generated (thorough: exhaustively enumerated) schedules, with an independent 'what the thread sees alone' predicate.",
